@@ -114,7 +114,7 @@ func (v VLA) analyzeVLAForMarshaling() (*vlaMarshalingContext, error) {
 	if ctx.commonSLBM != 0 {
 		ctx.requiredLen = 1
 	} else {
-		ctx.requiredLen = 3
+		ctx.requiredLen = 2 + (v.RTPStreamCount-1)/2
 	}
 
 	// #tl fields
